@@ -125,3 +125,27 @@ Section Term.
   Qed.
 End Term.
 
+
+(* CompletedIndex after a run that was not stopped by an error: the index of the last id *)
+Lemma completed_from_ok : forall ds fuel ids vis i cur s v o,
+  order_from ds fuel ids vis = (s, v, o) -> s = SOk ->
+  completed_from ds fuel ids vis i cur = match ids with [] => cur | _ => i + Z.of_nat (length ids) - 1 end.
+Proof.
+  intros ds fuel. induction ids as [|id rest IH]; intros vis i cur s v o H Hs; [reflexivity|].
+  cbn [order_from completed_from] in *.
+  destruct (walk ds fuel id [] vis) as [[s1 v1] o1]. destruct s1.
+  - destruct (order_from ds fuel rest v1) as [[s2 v2] o2] eqn:O.
+    assert (E : s2 = SOk) by congruence.
+    rewrite (IH v1 (i + 1) i s2 v2 o2 O E). destruct rest; cbn [length]; lia.
+  - inversion H; subst. discriminate.
+  - inversion H; subst. discriminate.
+Qed.
+
+Theorem completed_index_ok : forall ds fuel ids out,
+  order ds fuel ids = (SOk, out) ->
+  completed_index ds fuel ids = Z.max 0 (Z.of_nat (length ids) - 1).
+Proof.
+  intros ds fuel ids out H. unfold order in H. unfold completed_index.
+  destruct (order_from ds fuel ids []) as [[s v] o] eqn:O. inversion H; subst.
+  rewrite (completed_from_ok ds fuel ids [] 0 0 SOk v out O eq_refl). destruct ids; cbn [length]; lia.
+Qed.
